@@ -4,4 +4,4 @@ repo=$1; unit=$2; shift 2
 out=/tmp/vdev/gen_$unit.rs
 mkdir -p /tmp/vdev
 python3 /verif/tools/vgen.py $repo /verif/contracts/verus/$unit.rs $out > /tmp/vdev/gen_$unit.log || { cat /tmp/vdev/gen_$unit.log | head -5; exit 2; }
-cd /tmp/vdev && verus gen_$unit.rs "$@" 2>&1 | grep -v "^ *|$" | grep -v "rust_verify/src/verifier.rs"
+cd /tmp/vdev && verus gen_$unit.rs --triggers-mode silent "$@" 2>&1 | grep -v "^ *|$" | grep -v "rust_verify/src/verifier.rs"
